@@ -70,7 +70,7 @@ def check(prop, tier, seed, replay):
         nround = sum(1 for x in lines if '"ev":"Round"' in x)
         cov = {"states": gdist, "transitions": ggen, "traces_validated_against_impl": len(lines) - len(bad),
                "evaluations": len(lines), "distinct_nontrivial": gdist,
-               "rule": "the complete lattice of abstract frames of Codec.tla (5x2x8x3x4x4 classes) x %d seeded concrete "
+               "rule": "the complete lattice of abstract frames of Codec.tla (7x2x8x3x6x4 classes) x %d seeded concrete "
                        "instances each, %d arbitrary byte strings (random / mutated valid frames), %d round trips over all "
                        "17 registered methods x both directions; distinct_nontrivial counts the distinct abstract frames "
                        "(all are exercised)" % (inst, nbytes, nround),
